@@ -45,10 +45,10 @@ def run(ctx):
             fn = ctx.fn(fp)
             rows2 = P.table(ctx, fp, ['val'])
             got = [(x.cond_strs(), [e for e in x.effects if '=' in e and not e.startswith('let')], x.value_str()) for x in rows2]
-            want = [(['(val == 0)'], ['val = std::num::max_value()'], 'val'), (['!(val == 0)'], [], 'val')]
+            want = [(['(val == 0)'], ['val = %s::MAX' % ty], 'val'), (['!(val == 0)'], [], 'val')]
             r.eq('%s:rows' % nm, got, want, ctx.site(fp), why='0 is promoted to the maximum, anything else is unchanged')
-            mx = [n for n in H.walk(fn['hir']) if n.get('k') == 'Call' and 'max_value' in (H.callee_path(n) or '')]
-            r.check('%s:width' % nm, fn['inputs'] == [ty] and fn['output'] == ty and len(mx) == 1 and mx[0].get('ty') == ty, ctx.site(fp), built=(fn['inputs'], fn['output'], [m.get('ty') for m in mx]),
+            mx = [n for n in H.walk(fn['hir']) if H.num_limit(n)]
+            r.check('%s:width' % nm, fn['inputs'] == [ty] and fn['output'] == ty and len(mx) == 1 and mx[0].get('ty') == ty and H.num_limit(mx[0]) == ty + '::MAX', ctx.site(fp), built=(fn['inputs'], fn['output'], [m.get('ty') for m in mx]),
                     expected='%s -> %s with %s::max_value()' % (ty, ty, ty), why="two unlimited sides yield the field's own maximum")
 
     with ctx.rule('R15.2', 'frame_max floor: below 4096 -> FrameMaxTooSmall and no TuneOk', floor=4) as r:
@@ -108,7 +108,7 @@ def run(ctx):
         if r.check('payload-limit:rows', len(z) == 1 and len(nz) == 1, site, built=[x.row() for x in rows]):
             ez = [e for e in z[0].effects if e.startswith('frame_max')]
             en = [e for e in nz[0].effects if e.startswith('frame_max')]
-            r.eq('payload-limit:zero', ez, ['frame_max = std::num::max_value()', 'frame_max -= io_loop::channel_handle::FRAME_OVERHEAD'], site)
+            r.eq('payload-limit:zero', ez, ['frame_max = usize::MAX', 'frame_max -= io_loop::channel_handle::FRAME_OVERHEAD'], site)
             r.eq('payload-limit:nonzero', en, ['frame_max -= io_loop::channel_handle::FRAME_OVERHEAD'], site, why='payload per body frame = negotiated frame_max minus the framing bytes')
             r.check('payload-limit:stored', all(x.value_str() == 'io_loop::channel_handle::Channel0Handle{frame_max: frame_max, handle: handle}' for x in rows), site)
         c = ctx.const('io_loop::channel_handle::FRAME_OVERHEAD')
